@@ -4,6 +4,8 @@
 // only compiled with the "verif" build tag; the shipped code never sees it.
 package verifhook
 
+import "context"
+
 // Yield, when set, is called by code under test immediately before it touches
 // state that other goroutines of the same component contend for. The simulator
 // parks the caller there and decides who goes first.
@@ -14,3 +16,8 @@ var Yield func(point string, args ...string)
 // math/rand, which no seed controls). urls are the candidates in sorted order;
 // the result must be a permutation of them.
 var Session func(group string, urls []string) []string
+
+// CallerID, when set, names the caller on whose behalf a piece of code under
+// test runs (the simulator stores it in the context it hands in). Yield points
+// use it to tell concurrent calls apart that carry the very same arguments.
+var CallerID func(ctx context.Context) string
